@@ -28,6 +28,10 @@ def _conc(x):
     return x
 
 
+_ELEMENTARY = {'asin', 'acos', 'sinh', 'cosh', 'tanh', 'asinh', 'acosh', 'atanh', 'log10', 'log2', 'log1p', 'expm1', 'exp2', 'cbrt',
+               'erf', 'erfc', 'gamma', 'lgamma', 'remainder'}
+
+
 class SymMath(types.ModuleType):
     """drop-in replacement for the `math` module inside py_ballisticcalc's modules"""
 
@@ -36,8 +40,12 @@ class SymMath(types.ModuleType):
         for k in dir(_math):
             if not k.startswith('__'):
                 setattr(self, k, getattr(_math, k))
+        for k in dir(_math):
+            if not k.startswith('__') and callable(getattr(_math, k)):
+                setattr(self, k, self._generic(k))
         for k in ('sqrt', 'sin', 'cos', 'tan', 'atan', 'atan2', 'pow', 'exp', 'fabs', 'floor', 'radians',
-                  'degrees', 'isnan', 'isinf', 'isfinite', 'copysign', 'hypot', 'log'):
+                  'degrees', 'isnan', 'isinf', 'isfinite', 'copysign', 'hypot', 'log', 'ceil', 'trunc', 'fsum', 'prod',
+                  'isclose', 'fmod', 'dist'):
             setattr(self, k, getattr(self, '_' + k))
 
     @staticmethod
@@ -119,17 +127,76 @@ class SymMath(types.ModuleType):
         x = _conc(x)
         if not _any_sym(x):
             return _math.floor(x)
-        # integer k with k <= x < k + 1 (one k per distinct argument on a path)
-        eng = engine()
-        t = z3.simplify(lift(x))
-        key = ('floor', t.sexpr())
-        hit = eng.summaries.get(key)
-        if hit is not None:
-            return SymInt(hit[0])
-        k = eng.fresh_int('floor')
-        eng.add_axiom(z3.And(z3.ToReal(k) <= t, t < z3.ToReal(k) + 1))
-        eng.summaries[key] = (k, [])
-        return SymInt(k)
+        return SymInt(core._floor_term(lift(x)))
+
+    def _ceil(self, x):
+        x = _conc(x)
+        if not _any_sym(x):
+            return _math.ceil(x)
+        return SymInt(-core._floor_term(-lift(x)))
+
+    def _trunc(self, x):
+        x = _conc(x)
+        if not _any_sym(x):
+            return _math.trunc(x)
+        t = lift(x)
+        return SymInt(z3.If(t >= 0, core._floor_term(t), -core._floor_term(-t)))
+
+    def _fsum(self, it):
+        it = list(it)
+        if not _any_sym(*it):
+            return _math.fsum(it)
+        r = 0.0
+        for v in it:
+            r = r + v
+        return r
+
+    def _prod(self, it, start=1):
+        it = list(it)
+        if not _any_sym(start, *it):
+            return _math.prod(it, start=start)
+        r = start
+        for v in it:
+            r = r * v
+        return r
+
+    def _isclose(self, a, b, rel_tol=1e-09, abs_tol=0.0):
+        if not _any_sym(a, b, rel_tol, abs_tol):
+            return _math.isclose(a, b, rel_tol=rel_tol, abs_tol=abs_tol)
+        d = self._fabs(a - b)
+        m = self._fabs(a)
+        n = self._fabs(b)
+        big = SymFloat(z3.If(lift(m) >= lift(n), lift(m), lift(n)))
+        lim = rel_tol * big
+        lim = SymFloat(z3.If(lift(lim) >= lift(abs_tol), lift(lim), lift(abs_tol)))
+        return d <= lim
+
+    def _fmod(self, x, y):
+        if not _any_sym(x, y):
+            return _math.fmod(x, y)
+        # C fmod: x - y*trunc(x/y)
+        q = x / y
+        return x - y * float(self._trunc(q))
+
+    def _dist(self, p, q):
+        if not _any_sym(*p, *q):
+            return _math.dist(p, q)
+        return self._sqrt(sum((a - b) * (a - b) for a, b in zip(p, q)))
+
+    def _generic(self, name):
+        real = getattr(_math, name)
+
+        def f(*a, **k):
+            a2 = [_conc(x) for x in a]
+            if not _any_sym(*a2) and not _any_sym(*k.values()):
+                return real(*a2, **k)
+            if name in _ELEMENTARY and not k:
+                # a function of real arguments without a model: fresh real per syntactic argument tuple (sound: no axioms but
+                # functional consistency); anything found with it is a candidate for native replay
+                return engine().summary(name, [lift(x) for x in a2])
+            raise core.SymLeak(f'math.{name} on a symbolic value is not modelled')
+        f.__name__ = name
+        return f
 
     def _radians(self, x):
         if not _any_sym(x):
@@ -159,12 +226,17 @@ class SymMath(types.ModuleType):
     def _copysign(self, x, y):
         if not _any_sym(x, y):
             return _math.copysign(x, y)
-        raise core.SymLeak('copysign')
+        if not _any_sym(y):
+            neg = _math.copysign(1.0, y) < 0
+            m = self._fabs(x)
+            return -m if neg else m
+        m = lift(self._fabs(x))
+        return SymFloat(z3.If(lift(y) >= 0, m, -m))      # the sign of a symbolic zero is taken as +
 
     def _hypot(self, *a):
         if not _any_sym(*a):
             return _math.hypot(*a)
-        raise core.SymLeak('hypot')
+        return self._sqrt(sum(x * x for x in a))
 
 
 symmath = SymMath()
@@ -187,26 +259,52 @@ def sym_float(x=0.0):
     return builtins.float(x)
 
 
-def as_type_stub(fn):
+def sym_int(x=0, *a):
+    """builtin int() that keeps symbolic values symbolic (truncation towards zero)"""
+    if a:
+        return builtins.int(x, *a)
+    if isinstance(x, SymInt):
+        return x
+    if isinstance(x, SymFloat):
+        x = _conc(x)
+        if isinstance(x, SymFloat):
+            return symmath.trunc(x)
+        return builtins.int(x)
+    return builtins.int(x)
+
+
+def as_type_stub(fn, base=builtins.float, also=()):
     """wrap a float()-like function so that it can also stand for the TYPE in isinstance(x, (float, int))"""
     class _Meta(type):
         def __instancecheck__(cls, inst):
-            return isinstance(inst, builtins.float)
+            return isinstance(inst, (base,) + tuple(also))
+
+        def __subclasscheck__(cls, sub):
+            return issubclass(sub, base)
 
         def __call__(cls, *a):
             return fn(*a)
 
-    class float(metaclass=_Meta):      # noqa: A001 - deliberately named like the builtin
-        pass
-    return float
+        def __eq__(cls, other):
+            return other is cls or other is base
+
+        def __hash__(cls):
+            return hash(base)
+
+    _Stub = _Meta(base.__name__, (), {})
+    return _Stub
 
 
-class HashVal:
+class HashVal(int):
     """result of the stubbed hash(): an unknown injective function of the hashed structure.
-    Two HashVals are equal iff their structures are equal (symbolic components compared by the solver)."""
+    Two HashVals are equal iff their structures are equal (symbolic components compared by the solver).
+    As an int (what a C-level caller of __hash__ sees: dict, set, lru_cache) it is one constant, so that containers put every
+    symbolic key into one bucket and decide by ==."""
 
-    def __init__(self, struct):
-        self.struct = struct
+    def __new__(cls, struct):
+        o = int.__new__(cls, core.SYM_HASH)
+        o.struct = struct
+        return o
 
     @staticmethod
     def _eq(a, b):
@@ -241,7 +339,8 @@ class HashVal:
             return not e
         return ~e
 
-    __hash__ = None  # type: ignore
+    def __hash__(self):
+        return core.SYM_HASH
 
     def __repr__(self):
         return f'HashVal({self.struct!r})'
@@ -310,6 +409,24 @@ def install():
     import py_ballisticcalc.interface_config as icfg
     for m in (tc, mun, dm, vec, iface, td, icfg):
         m.float = as_type_stub(sym_float)
+    # ... and generically, for constructs a change may introduce anywhere in the package: the math module and names imported
+    # from it, float(), int(), hash()
+    fstub, istub = as_type_stub(sym_float), as_type_stub(sym_int, builtins.int, (SymInt,))
+    for name, m in list(sys.modules.items()):
+        if not (name == 'py_ballisticcalc' or name.startswith('py_ballisticcalc.')) or m is None:
+            continue
+        g = vars(m)
+        for k, v in list(g.items()):
+            if v is _math:
+                g[k] = symmath
+            elif getattr(v, '__module__', None) == 'math' and callable(v) and getattr(_math, getattr(v, '__name__', ''), None) is v:
+                g[k] = getattr(symmath, v.__name__)
+        if not isinstance(g.get('float'), type) or g.get('float') is builtins.float:
+            g['float'] = fstub
+        if 'int' not in g or g['int'] is builtins.int:
+            g['int'] = istub
+        if 'hash' not in g:
+            g['hash'] = sym_hash
     _INSTALLED = True
 
 
